@@ -4,7 +4,8 @@
    what the tree implements NOW, read from the source on every run and used by the correspondence run.
    [run v c ops s] executes a history; a failing step leaves the state unchanged (cache discarded).
    tree_r0 = the tree before 86992ce/c0fbb8a, tree_r1 = with them, tree_r2 = + the three pending repairs. *)
-From Sekai Require Import Base.Prelude Base.Dec Model.Pools Gen.C10Cfg Proofs.Pools Proofs.PoolsTree.
+From Sekai Require Import Base.Prelude Base.Dec Model.Pools Gen.C10Cfg Model.C10Check Proofs.Pools Proofs.PoolsTree
+  Proofs.PoolsRewards Proofs.PoolsChk.
 
 (* ================= shares match stake: every history, every variant *)
 Theorem C10_share_supply_eq_book :
@@ -169,6 +170,37 @@ Theorem C10_credited_le_allocation_refuted :
   fee s0 1 - treas s0 1 = 6 /\ nbal s 100 1 - nbal s0 100 1 = 3 /\ rew s 0 1 - rew s0 0 1 = 4.
 Proof. exact credited_le_allocation_refuted. Qed.
 Print Assumptions C10_credited_le_allocation_refuted.
+
+(* what does hold (the [_partial] bound): given the bank-ledger facts about the share tokens (holdings non-negative,
+   the holdings of the duplicate-free delegator list add up to at most the pool's share record), for every reward
+   denom the delegators together are credited at most the sum over the staked denoms of round(reward * StakeCap):
+   the excess over the pool allocation is exactly that per-denom rounding, nothing systematic *)
+Theorem C10_credited_le_allocation_partial :
+  forall c s rw e, NoDup (dels s) -> NoDup (c_dens c) ->
+  (forall a d, 0 <= sbal s a d) ->
+  (forall d, zsum_map (fun a => sbal s a d) (dels s) <= shares s d) ->
+  (forall r, 0 <= rw r) -> (forall d en mn cap, tok_of c d = Some (en, mn, cap) -> 0 <= cap) ->
+  zsum_map (fun b => credit_all c s rw b e - rew s b e) (dels s)
+  <= zsum_map (fun d => denom_allocation c s rw d e) (c_dens c).
+Proof. exact delegators_credited_le_denom_allocations. Qed.
+Print Assumptions C10_credited_le_allocation_partial.
+
+(* ================= checker soundness (state clauses and the claim clauses): the spec checker that is run on the REAL
+   observations accepts the observation of every state of every model history *)
+Theorem C10_chk_sound_supply :
+  forall v c ops s, inv_supply s -> ok_supply c (obs_of_st c (run v c ops s)) = true.
+Proof. exact chk_sound_supply_run. Qed.
+Print Assumptions C10_chk_sound_supply.
+Theorem C10_chk_sound_registry :
+  forall v c ops s, v_burn_registry v = true -> inv_registry s -> ok_registry c (obs_of_st c (run v c ops s)) = true.
+Proof. exact chk_sound_registry_run. Qed.
+Print Assumptions C10_chk_sound_registry.
+Theorem C10_chk_sound_claim :
+  forall v c who id s s', v_owner_check v = true -> claim v who id s = Ok s' ->
+  exists ow ex am, find_rec id (o_undels (obs_of_st c s)) = Some (ow, ex, am) /\ ((ow =? who) = true) /\
+                   ((ex <=? o_time (obs_of_st c s)) = true).
+Proof. exact chk_sound_claim_owner_expiry. Qed.
+Print Assumptions C10_chk_sound_claim.
 
 (* non-vacuity *)
 Example C10_nonvacuous :
